@@ -368,6 +368,22 @@ type Header struct {
 	reserved2 [reservedHeader2Bytes]int64
 }
 
+// CheckHeaderLimits returns an error when the schema described by the TimeBucketInfo
+// cannot be stored faithfully in the fixed-size file header: element names longer than
+// the header slot would be cut off and more elements than slots would overflow it.
+func (f *TimeBucketInfo) CheckHeaderLimits() error {
+	names := f.GetElementNames()
+	if len(names) > maxNumElements {
+		return fmt.Errorf("too many columns: %d (max %d)", len(names), maxNumElements)
+	}
+	for _, name := range names {
+		if len(name) > elementNameHeaderBytes {
+			return fmt.Errorf("column name %q is longer than %d bytes", name, elementNameHeaderBytes)
+		}
+	}
+	return nil
+}
+
 // WriteHeader writes the header described by a given TimeBucketInfo to the
 // supplied file pointer.
 func WriteHeader(file *os.File, f *TimeBucketInfo) error {
